@@ -658,6 +658,60 @@ def canonicalise_fields(doc):
 _PARAM_TABLE = None
 
 
+def canonicalise_fn_renames(doc):
+    """undo the rename of a private function: a function that is not in the pinned tree, while
+    exactly one pinned function of the same impl / module with the same signature is missing, is
+    that function under a new name (jbv/pinned_sigs.json; only used to undo renames - a function
+    that is genuinely new has no missing twin and is inlined instead)"""
+    here = os.path.dirname(os.path.abspath(__file__))
+    try:
+        sigs = json.load(open(os.path.join(here, "pinned_sigs.json")))
+    except OSError:
+        return {}
+    cur = {b["path"]: b for b in doc["bodies"] if b.get("kind") != "Closure"}
+    missing = [m for m in sigs if m not in cur]
+    if not missing:
+        return {}
+    ren = {}
+    taken = set()
+    for n, b in sorted(cur.items()):
+        if n in sigs:
+            continue
+        locs = b["hdr"]["locals"]
+        argc = b.get("argc", 0)
+        sig = [locs[0]["ty"], [locs[i]["ty"] for i in range(1, argc + 1)]]
+        prefix = n.rsplit("::", 1)[0]
+        cands = [m for m in missing if m.rsplit("::", 1)[0] == prefix and sigs[m] == sig and m not in taken]
+        if len(cands) == 1:
+            ren[n] = cands[0]
+            taken.add(cands[0])
+    if not ren:
+        return {}
+    pats = [(re.compile(r"(?<![\w:])" + re.escape(n) + r"(?![\w])"), m) for n, m in ren.items()]
+
+    def walk(o):
+        if isinstance(o, dict):
+            for k, v in list(o.items()):
+                if isinstance(v, str):
+                    for rx, m in pats:
+                        if rx.search(v):
+                            v = rx.sub(lambda _m, m=m: m, v)
+                    o[k] = v
+                else:
+                    walk(v)
+        elif isinstance(o, list):
+            for i, v in enumerate(o):
+                if isinstance(v, str):
+                    for rx, m in pats:
+                        if rx.search(v):
+                            v = rx.sub(lambda _m, m=m: m, v)
+                    o[i] = v
+                else:
+                    walk(v)
+    walk(doc)
+    return ren
+
+
 def canonicalise_params(doc):
     """Undo parameter *renames* relative to the pinned tree (jbv/param_names.json, by position): if a
     function of the table has the same arity but a parameter whose name is not among the recorded
@@ -773,6 +827,8 @@ class Program:
         if mode:
             anonymise(doc, mode)
         if not os.environ.get("JBV_NO_CANON"):
+            if doc.get("crate") == "jbonsai":
+                canonicalise_fn_renames(doc)
             canonicalise_params(doc)
             canonicalise_fields(doc)
         inl = []
